@@ -306,7 +306,21 @@ void janet_async_start_fiber(JanetFiber *fiber, JanetStream *stream, JanetAsyncM
     callback(fiber, JANET_ASYNC_EVENT_INIT);
 }
 
+/* Is another fiber (that has not been cancelled in the meantime) still waiting in this slot? */
+static int janet_async_slot_busy(JanetFiber *waiting) {
+    return waiting != NULL && waiting != janet_vm.root_fiber &&
+           !(waiting->gc.flags & JANET_FIBER_EV_FLAG_CANCELED);
+}
+
 void janet_async_start(JanetStream *stream, JanetAsyncMode mode, JanetEVCallback callback, void *state) {
+    /* Only one fiber at a time can wait to read from (or to write to) a stream. Registering a second
+     * one would silently replace the first, which would then never be resumed. */
+    int read_busy = (mode & JANET_ASYNC_LISTEN_READ) && janet_async_slot_busy(stream->read_fiber);
+    int write_busy = (mode & JANET_ASYNC_LISTEN_WRITE) && janet_async_slot_busy(stream->write_fiber);
+    if (read_busy || write_busy) {
+        janet_free(state);
+        janet_panicf("another fiber is already waiting to %s this stream", read_busy ? "read from" : "write to");
+    }
     janet_async_start_fiber(janet_vm.root_fiber, stream, mode, callback, state);
     janet_await();
 }
